@@ -234,3 +234,14 @@ M("C06", "root-polymorphic-only-joined", WTF, "        if self.parent_table is N
 M("C06", "assoc-name-without-field", WTF, "            f\"{self.tablename.lower()}_{wrapped_field.field.name}_association\"", "            f\"{self.tablename.lower()}_{target_wrapped_table.tablename.lower()}_association\"", "association-table-name", allow_error=True)
 R("C06", "builtins-literal", OMF, "        self.imported_modules.add(int.__module__)\n", "        self.imported_modules.add(\"builtins\")\n")
 R("C06", "dispatch-reorder-independent", WTF, "            wrapped_field.is_collection_of_builtins\n            or wrapped_field.type_endpoint in self.ormatic.type_mappings\n            and wrapped_field.is_container", "            (wrapped_field.type_endpoint in self.ormatic.type_mappings\n            and wrapped_field.is_container) or wrapped_field.is_collection_of_builtins")
+
+# ------------------------------------------------------------------------------------- C20
+HDF = "krrood/entity_query_language/hashed_data.py"
+M("C20", "strong-instance-field", SGF, "    instance: InitVar[Symbol]\n", "    instance: Symbol\n", "WrappedInstance.instance#initvar")
+M("C20", "strong-instance-reference", SGF, "        self.instance_reference = weakref.ref(instance)\n", "        self.instance_reference = lambda: instance\n", "WrappedInstance.__post_init__#weakref")
+M("C20", "module-level-result-cache", SYM, "id_generator = IDGenerator()\n", "id_generator = IDGenerator()\n_result_cache: Dict[int, OperationResult] = {}\n\n\ndef _remember(r):\n    _result_cache[id(r)] = r\n", "STRONG-REF@symbolic._result_cache")
+M("C20", "classvar-last-instances", SGF, "    _relation_index: Dict[WrappedField, set[tuple[int, int]]] = field(\n        default_factory=dict, init=False, repr=False\n    )\n", "    _relation_index: Dict[WrappedField, set[tuple[int, int]]] = field(\n        default_factory=dict, init=False, repr=False\n    )\n    _strong_instances: List[Any] = field(default_factory=list, init=False)\n", "STRONG-REF@SingletonMeta._instances")
+M("C20", "owner-bound-strongly", MCF, "        self._owner_ref = weakref_ref(owner)\n", "        self._owner_ref = lambda: owner\n", "MonitoredContainer._bind_owner#weak")
+M("C20", "lru-on-get-wrapped", SGF, "    def get_wrapped_instance(self, instance: Any) -> Optional[WrappedInstance]:", "    @lru_cache(maxsize=None)\n    def get_wrapped_instance(self, instance: Any) -> Optional[WrappedInstance]:", "lru_cache:SymbolGraph.get_wrapped_instance")
+M("C20", "no-relation-purge", SGF, "        for source, target, relation in list(\n            self._instance_graph.in_edges(index)\n        ) + list(self._instance_graph.out_edges(index)):\n            self._relation_index.get(relation.wrapped_field, set()).discard(\n                (source, target)\n            )\n", "", "_relation_index")
+R("C20", "new-classvar-of-types", SGF, "    _relation_index: Dict[WrappedField, set[tuple[int, int]]] = field(", "    known_types: ClassVar[Dict[str, Type]] = {}\n    _relation_index: Dict[WrappedField, set[tuple[int, int]]] = field(")
